@@ -64,3 +64,45 @@ def replay(ctx, obj):
     for b in obj.get("broken", []):
         print("no longer checks:", b)
     return 1
+
+
+def merge(parts):
+    """union of several correspond() results: parts = [(label, result dict)]"""
+    out = {"evaluations": 0, "distinct_nontrivial": 0, "rule": "", "samples": [], "distribution": {}, "mismatches": [],
+           "failures": [], "notes": []}
+    for label, r in parts:
+        out["evaluations"] += int(r.get("evaluations", 0))
+        out["distinct_nontrivial"] += int(r.get("distinct_nontrivial", 0))
+        out["rule"] += ("" if not out["rule"] else " || ") + "[%s] %s" % (label, r.get("rule", ""))
+        out["samples"] += [{"part": label, "sample": x} for x in list(r.get("samples", []))[:4]]
+        out["distribution"][label] = r.get("distribution", {})
+        for m in r.get("mismatches", []):
+            out["mismatches"].append(m if not isinstance(m, dict) else dict(m, part=label))
+        for f in r.get("failures", []):
+            out["failures"].append(dict(f, part=label))
+        out["notes"] += list(r.get("notes", []))
+    return out
+
+
+def run_part(label, fn, ctx):
+    """a part that crashes is a broken tie of that part, not of the whole check"""
+    import traceback
+    try:
+        return (label, fn(ctx))
+    except Exception:
+        return (label, {"mismatches": [{"what": "correspondence part '%s' crashed" % label, "detail": traceback.format_exc()[-2000:]}],
+                        "failures": [], "evaluations": 0})
+
+
+def replay_parts(ctx, obj, parts):
+    """parts = {label: replay function}; failures carry their part label (absent = lanes oracle)"""
+    rc = 1
+    for label, fn in parts.items():
+        sub = {"failures": [f for f in obj.get("failures", []) if f.get("part", "lanes") == label],
+               "broken": [b for b in obj.get("broken", []) if isinstance(b, dict) and isinstance(b.get("detail"), dict) and b["detail"].get("part", "lanes") == label]}
+        if sub["failures"] or sub["broken"]:
+            fn(ctx, sub)
+    rest = [b for b in obj.get("broken", []) if not (isinstance(b, dict) and isinstance(b.get("detail"), dict) and "part" in b["detail"])]
+    for b in rest:
+        print("no longer checks:", b)
+    return rc
